@@ -268,6 +268,7 @@ type putFacts struct {
 	data       []byte // the byte sequence the stream really yields (a prefix of full when the source fails)
 	srcFails   bool
 	trueDig    string
+	fullDig    string
 	declDig    string // "" = none
 	declSize   int64  // 0 = unknown
 	contra     bool   // the declaration contradicts the stream
@@ -387,8 +388,12 @@ func derivePut(c Case, cf *caseFacts, seed uint64, length int, readErrAt int) pu
 		f.data = f.full[:readErrAt-1]
 		f.srcFails = true
 	}
-	f.trueDig = rm.Digest(cf.algo, f.data)
 	fullDig := rm.Digest(cf.algo, f.full)
+	f.fullDig = fullDig
+	f.trueDig = fullDig
+	if f.srcFails {
+		f.trueDig = rm.Digest(cf.algo, f.data)
+	}
 	n := int64(len(f.full))
 	d := c.Declared
 	f.kind = d.Kind
@@ -733,6 +738,7 @@ type env struct {
 	storeRepo string
 	srcRef    ref.Ref // copy entries
 	srcPut    func(dig string, data []byte) error
+	prevErr   bool // an earlier upload of this case returned an error
 	backoffs  int // injected failures and refusals delivered so far (they add up in the per-host backoff state)
 	dirty     bool
 }
@@ -1073,7 +1079,7 @@ func (e *env) onePut(idx int, seed uint64, length int, ev *evid.Collector) putOu
 			e.preseed = true
 		}
 		if c.Pre == "same-blob" && mayExist && !f.srcFails {
-			if err := e.preload(rm.Digest(cf.algo, f.full), f.full); err != nil {
+			if err := e.preload(f.fullDig, f.full); err != nil {
 				out.v = &evid.Violation{Sig: "harness-setup", Msg: err.Error()}
 				return out
 			}
@@ -1081,7 +1087,7 @@ func (e *env) onePut(idx int, seed uint64, length int, ev *evid.Collector) putOu
 		}
 	}
 	if e.srcPut != nil {
-		if err := e.srcPut(rm.Digest(cf.algo, f.full), f.full); err != nil {
+		if err := e.srcPut(f.fullDig, f.full); err != nil {
 			out.v = &evid.Violation{Sig: "harness-setup", Msg: err.Error()}
 			return out
 		}
@@ -1116,7 +1122,9 @@ func (e *env) onePut(idx int, seed uint64, length int, ev *evid.Collector) putOu
 
 	// ---- classification ----
 	cl := []string{"decl:" + f.kind, "len:" + lenClass(length, cf.chunkEff)}
-	if length >= 32767 {
+	if length >= defChunk-1 {
+		cl = append(cl, "len:>=1MiB")
+	} else if length >= 32767 {
 		cl = append(cl, "len:>=32KiB")
 	}
 	if f.contra {
@@ -1207,6 +1215,10 @@ func (e *env) onePut(idx int, seed uint64, length int, ev *evid.Collector) putOu
 		e.backoffs++
 	}
 
+	prevErr := e.prevErr
+	if res.err != nil {
+		e.prevErr = true
+	}
 	if res.panicked != "" {
 		out.v = debug(evid.V(sp+"panic-in-upload", "the client panicked: %s: %s", res.panicked, where))
 		return out
@@ -1227,6 +1239,12 @@ func (e *env) onePut(idx int, seed uint64, length int, ev *evid.Collector) putOu
 		// verification; against the deliberately non-verifying (lax) model nothing can be required
 		if cf.lax && f.contraDig && f.tryPut {
 			ev.Class("exempt:lax-mono-wrong-digest")
+			return out
+		}
+		if o.mounted {
+			// the destination already held a blob under the declared digest and granted the anonymous mount:
+			// the documented shortcut of BlobPut trusts the descriptor and never looks at the stream
+			ev.Class("exempt:mount-shortcut-trusts-descriptor")
 			return out
 		}
 		var after []byte
@@ -1305,7 +1323,10 @@ func (e *env) onePut(idx int, seed uint64, length int, ev *evid.Collector) putOu
 		ev.Class("exempt:applied-response-lost")
 		return out
 	}
-	if e.backoffs >= cf.retryLimit {
+	refused := cf.isReg && c.Feat.RefuseMono && f.tryPut && len(f.data) > 0
+	if e.backoffs >= cf.retryLimit || (prevErr && (o.faultsHit > 0 || refused)) {
+		// after an earlier upload of this client failed, the per-host backoff count it left behind is unknown
+		// (body read errors and framing errors never reach the model's log)
 		ev.Class("exempt:beyond-retry-limit")
 		return out
 	}
